@@ -86,7 +86,13 @@ extern int vp_thrown;           /* a C++ exception is in flight */
 /* at(): the throwing bounds check of std::vector::at becomes an obligation */
 static inline size_t vp_at(size_t i, size_t n)
 {
+#ifdef VP_AT_ASSUME
+  /* the index bound is non-linear integer arithmetic: it is discharged over the integers (B2i job named in the recipe)
+   * and assumed here */
+  __CPROVER_assume(i < n);
+#else
   __CPROVER_assert(i < n, "vector::at index in range (would throw std::out_of_range)");
+#endif
   return i;
 }
 static inline size_t vp_back(size_t n)
